@@ -62,11 +62,60 @@ def run_shard(shard):
     with cli.workdir("vkit-c17-") as wd:
         if shard[0] == "pre":
             pre_write(st, wd, shard[1])
+            if shard[1] == 0:
+                symlink_family(st, wd)
         elif shard[0] == "save":
             save_faults(st, wd, shard[1], shard[2], pairs=False)
         else:
             save_faults(st, wd, shard[1], shard[2], pairs=True)
     return st
+
+
+def symlink_family(st, wd):
+    """The target is a symbolic link to the real file (a common layout for
+    managed configuration): with --backup the .bak must hold the pre-image
+    bytes - also after the new content has been written through the link."""
+    doc = DOCS[0]
+    runs = [
+        ("yaml-set", lambda t: ["--change=/c/d", "--value=new", "--backup",
+                                t], {}),
+        ("yaml-merge", lambda t: ["--nostdin", "--overwrite=" + t,
+                                  "--backup", t,
+                                  os.path.join(wd, "rhs.yaml")],
+         {"rhs.yaml": "c:\n  d: merged\nnewkey: 1\n"}),
+    ]
+    for tool, mkargv, more in runs:
+        for relative in (True, False):
+            for stale in (False, True):
+                files = dict(more)
+                files["real.yaml"] = doc
+                if stale:
+                    files["conf.yaml.bak"] = STALE
+                reset(wd, files)
+                link = os.path.join(wd, "conf.yaml")
+                os.symlink("real.yaml" if relative else
+                           os.path.join(wd, "real.yaml"), link)
+                res = cli.run(tool, mkargv(link), cwd=wd)
+                st.evaluations += 1
+                st.transitions += 1
+                st.validated += 1
+                st.states += 1
+                case = {"tool": tool, "doc": doc, "stale_bak": stale,
+                        "symlink": "relative" if relative else "absolute",
+                        "cause": None, "fault": None}
+                st.sig("symlink", tool, relative, stale)
+                after = snapshot(wd)
+                if res.code != 0 or res.exc is not None:
+                    st.fail("%s|symlink-target|run-failed" % tool, case,
+                            "exit 0", repr(res)[:160])
+                elif after.get("conf.yaml.bak") != doc.encode():
+                    st.fail("%s|symlink-target|backup-not-the-pre-image"
+                            % tool, case, "the pre-image bytes",
+                            repr(after.get("conf.yaml.bak"))[:120])
+                elif after.get("real.yaml") == doc.encode():
+                    st.fail("%s|symlink-target|nothing-written" % tool, case,
+                            "the real file edited", "unchanged")
+    reset(wd, {})
 
 
 def reset(wd, files):
@@ -341,7 +390,9 @@ def one_fault(st, wd, tool, argv, base, tname, original, stale, k, kind,
 def replay(case):
     st = core.Stats(None)
     with cli.workdir("vkit-c17-") as wd:
-        if case.get("cause"):
+        if case.get("symlink"):
+            symlink_family(st, wd)
+        elif case.get("cause"):
             for di in range(len(DOCS)):
                 pre_write(st, wd, di)
         else:
